@@ -2976,6 +2976,11 @@ def get_expr_as_table(expr: ColExpr):
     # We need one column whose AST is an ancestor of all other columns' ASTs.
     # The following could be done in linear time.
     roots = [col._ast for col in cols] + [ea.with_ for ea in aligned_nodes]
+    if not roots:
+        raise ValueError(
+            "cannot export a column expression that contains neither a column nor an "
+            "`eval_aligned`: there is no table to evaluate it on"
+        )
     subtrees = [set(r.iter_subtree_postorder()) for r in roots]
     ancestor_index = None
     for i, tree in enumerate(subtrees):
